@@ -17,6 +17,7 @@ func init() {
 		Assumptions: []string{
 			"unit types {0,1,19,32,33,34,39,47}, (layer,TID) in {(0,1),(1,7),(63,1)}, F = 0 (the parser rejects F = 1 payloads as corrupted), sizes {3,4,MTU-3..MTU+1,2MTU+1} (>= 3 bytes: at least one payload byte); MTU {4,5,6,7,8,9,16,100}, with AddDONL only MTU >= 6 (below that no FU can carry a byte)",
 			"wide scenario: every NAL type 0-47 x every layer id 0-63 (TID 1) and every TID 1-7 alone and next to a small unit; units of 300, 257*(MTU-3)+2 (more than 256 FUs), 66000 bytes for MTU {6,100,1200,65535}; all sequences of 5-7 units over {3B, MTU-2 B, MTU+1 B} with alternating layer ids; aggregation of units of {3,255,256,257,300} bytes at MTU {600,1200,65535}; 64-600 small units in one call (more than 256 units per aggregation packet)",
+			"large aggregation candidates: all sequences of 2-3 units of {3,20000,30000,32768,40000,65000} bytes at MTU {32767,32768,40000,65535}; unit bodies: EVERY body of 1-6 bytes (thorough 7) over {00,01,03,FF} that is legal inside a NAL unit (no 00 00 00 / 00 00 01, no trailing 00), between two other units, 3- and 4-byte start codes, MTU {6,100}",
 			"DON values are not demanded, only their placement; the payloader's DONL in every FU (pinned by an existing test) is a listed known finding matched by an exact defect model",
 			"a truncation must be rejected unless the prefix is itself well-formed under the reference parser",
 		},
@@ -24,6 +25,7 @@ func init() {
 			{Name: "payloader-to-parser", Tiers: "qt", ShardDepth: 4, Run: c14Roundtrip},
 			{Name: "all-types-large-units-long-sequences", Tiers: "qt", ShardDepth: 3, Run: c14Wide},
 			{Name: "reference-encoder-to-parser", Tiers: "qt", ShardDepth: 3, Run: c14Parser},
+			{Name: "unit-bodies-with-zero-and-one-bytes", Tiers: "qt", ShardDepth: 3, Run: c14Bodies},
 			{Name: "bit-field-domains", Tiers: "qt", ShardDepth: 2, Run: c14Fields},
 		},
 	})
@@ -182,7 +184,15 @@ func c14Wide(c *mc.Ctx) {
 	var units [][]byte
 	var codes []int
 	var mtu int
-	switch c.Pick(5) {
+	switch c.Pick(6) {
+	case 5: // units whose sizes add up to more than 32767 / 65535 bytes, at MTUs that admit them
+		mtu = mc.From(c, []int{32767, 32768, 40000, 65535})
+		big := []int{3, 20000, 30000, 32768, 40000, 65000}
+		n := 2 + c.Pick(2)
+		for i := 0; i < n; i++ {
+			units = append(units, ref.H265Unit(uint8(1+i), uint8(i), 1, mc.From(c, big), byte(i*13)))
+			codes = append(codes, 3+i%2)
+		}
 	case 3: // aggregation of units around the 8-bit size boundary
 		mtu = mc.From(c, []int{600, 1200, 65535})
 		a := mc.From(c, []int{3, 255, 256, 257, 300})
@@ -610,4 +620,29 @@ func c14Fields(c *mc.Ctx) {
 	}
 	c.NonTrivial()
 	c.Outcome(fmt.Sprintf("domain=%d", which))
+}
+
+// c14Bodies: NAL unit bodies made of the bytes the start-code scanner looks at.
+func c14Bodies(c *mc.Ctx) {
+	maxLen := 6
+	if c.Thorough() {
+		maxLen = 7
+	}
+	n := 1 + c.Pick(maxLen)
+	sym := []byte{0x00, 0x01, 0x03, 0xFF}
+	body := make([]byte, n)
+	for i := range body {
+		body[i] = mc.From(c, sym)
+		if i >= 2 && body[i-2] == 0 && body[i-1] == 0 && body[i] <= 1 {
+			c.Prune() // start-code emulation: not a legal NAL unit
+		}
+	}
+	if body[n-1] == 0 {
+		return // a trailing zero belongs to the next start code
+	}
+	mtu := mc.From(c, []int{6, 100})
+	code := 3 + c.Pick(2)
+	unit := append([]byte{19 << 1, 0x01}, body...)
+	units := [][]byte{ref.H265Unit(1, 0, 1, 4, 7), unit, ref.H265Unit(1, 0, 2, 3, 0xEE)}
+	c14Core(c, mtu, false, c.Bool(), units, []int{4, code, 7 - code})
 }
